@@ -12,6 +12,15 @@ Implementation under test (imported from $SCALES_REPO as it is now):
             scales.observable (the notification greenlet of a deadline event runs when the op list says so).
             Deadlines are signalled exactly as ClientTimeoutSink does: evt = Observable() stored under
             Deadline.EVENT_KEY, evt.Set(True) at expiry.
+            Histories also contain: a call's sink stack that, from inside its reply/error callback, dispatches a new
+            request, calls Close() or raises (Exception and a BaseException subclass of gevent.Timeout; raising only on
+            reply delivery - a callback raising inside _Shutdown's error loop leaves calls unanswered, which is C02's
+            subject, not a tag question); requests issued while Open() is pending and every way that open ends (ping
+            answered, EOF, Close(), connect refused); Open() again on the closed sink object; a second sink instance in
+            the same process driven in between; the same message object dispatched again; frames arriving in two pieces
+            or several per segment; socket writes that stay in progress while other things happen and then finish or fail.
+            One op may therefore stand for several model labels: the harness records begin/end markers of what it did
+            (and a marker when a peer frame starts being processed), linearise() turns them into the label group.
 Model: coq/Model/MuxTags.v.  Monitor: an independent bookkeeping of who holds which tag, computed from the
 frames queued/written (tags parsed off the wire bytes by decode_written), the frames the scripted peer sent and the
 get()/release() calls the sink makes on its TagPool (never from the model, never from the sink's private fields).
@@ -37,7 +46,12 @@ RULE = ('suite (a): seeded TagPool histories (max_tag 3..9 and 2^24-1; get / rel
         'real ThriftMux / Kafka transport sink on an in-memory socket: requests without deadline, with a pending deadline, with an '
         'already expired one; send-loop steps (write ok / write fails); deadline firing and its notification greenlet scheduled '
         'independently; peer frames of 12 types on tags 0, 1, live, free, never-issued, 2^24-1, duplicates and premature '
-        'replies; short frames; pings; Close / EOF; re-open on a new connection; TagPool sizes 4..7 to reach exhaustion and '
+        'replies; frames cut in two at every byte position, 2-5 frames per segment; short frames; pings; Close / EOF; writes that '
+        'stay in progress and later finish or fail; sink-stack callbacks that re-enter the sink (new request - up to 3 deep -, Close()) '
+        'or raise (Exception / BaseException); requests (also with deadlines expiring) issued while Open() is pending, ended by ping '
+        'reply / EOF / Close(); re-open on a new sink (eager, pending, connect refused); Open() again on the closed sink object; '
+        '~20% of the cases drive a second sink instance in the same process in between; the same message object dispatched again; '
+        'TagPool sizes 2..7 to reach exhaustion and '
         'the real 2^24-1; in ~30% of the real-size cases the pool of every connection is fast-forwarded (high-water mark 254, 255, '
         '4094, 2^16-4..2^16+1, 2^17-2.., 2^20-1, 2^23-2.., 2^24-40..2^24-3 or random) so that tags around every byte boundary and '
         'up to 2^24-2 (then refusal) go through the real header writer, with peer frames aimed at those tags and at their 8/16/23-bit '
@@ -56,14 +70,19 @@ ASSUMPTIONS = ['a pool fast-forwarded to high-water mark b (b-1 real get() calls
                '(a peer that answers before the request frame is written has answered it)',
                'TagPool sizes below 2^24-1 are substituted through the TagPool(max_tag, ..) constructor argument only; the '
                'argument the sink passes itself is observed and must be 2^24-1',
-               'a re-open is a new sink object on a new connection (MuxSocketTransportSink cannot be re-opened once Closed)']
+               'a re-open is a new sink object on a new connection; Open() on the closed sink object itself is the label OpenAgain '
+               '(it never serves a request again: _state stays Closed)',
+               'a re-entrant call made by a sink-stack callback is modelled as the label that follows the enclosing one: in every such '
+               'path of this sink (_ProcessTaggedReply, the not-open answer, the error loop of _Shutdown) the enclosing step has made '
+               'all its tag-related state changes before the callback runs']
 
 MANIFEST = {
     'text': ('Theorems C11_range(_real), C11_reserved, C11_unique, C11_unique_wire, C11_unanswered_hold, C11_release_points, C11_reuse, '
              'C11_reuse_peak, C11_exhaustion, C11_no_early_refusal and C11_fill hold for every label sequence (requests, send-loop steps, '
-             'deadline firing/notification, arbitrary peer frames, pings, shutdown, re-open; no bound on length, every set.pop() outcome) '
+             'deadline firing/notification, arbitrary peer frames, pings, shutdown, re-open, Open() again; no bound on length, every set.pop() '
+             'outcome, every start mark of the pool) '
              'of the Gallina transcription of TagPool and the mux transport; the transcription is compared event for event with the real '
-             'TagPool and the real ThriftMux/Kafka transport sinks on ~3k (quick) / ~19k (thorough) generated histories per run, and an '
+             'TagPool and the real ThriftMux/Kafka transport sinks on ~2k (quick) / ~19k (thorough) generated histories per run, and an '
              'independent monitor checks the property on the tags parsed off the queued/written frames (compared with the tags leased '
              'from the pool, also for pools fast-forwarded to 2^16 and 2^24-2).'),
     'note': ('Trusted: Coq kernel; the harness (in-memory socket, step-granting send queue, captured notification greenlet) and its '
@@ -75,7 +94,7 @@ MANIFEST = {
 REAL_MAX = 2 ** 24 - 1
 _S = {}
 _CUR = {'ev': None, 'queues': None, 'pending': None, 'evt_call': None, 'helpers': None, 'pool_args': None, 'max': None,
-        'start': None}
+        'start': None, 'proto': None}
 FFWD_BY_CALLS = 4096     # fast-forward a pool by really calling get() up to this mark, above it by setting the mark
 
 
@@ -90,6 +109,15 @@ def _emit(*e):
 def _make_world():
   import gevent
   from gevent.event import Event
+
+  class HarnessError(Exception):
+    """Raised by a sink-stack callback on purpose."""
+
+  class HarnessTimeout(gevent.Timeout):
+    """A BaseException (not an Exception) raised by a sink-stack callback on purpose."""
+
+  hub = gevent.get_hub()
+  hub.NOT_ERROR = tuple(hub.NOT_ERROR) + (HarnessError, HarnessTimeout)     # do not print them when they end a greenlet
 
   class CtlQueue(object):
     """Stands in for gevent.queue.Queue inside scales.mux.sink: get() returns only when the harness granted a step."""
@@ -152,15 +180,22 @@ def _make_world():
     host = 'peer'
     port = 1
 
-    def __init__(self):
+    def __init__(self, inst):
+      self.inst = inst
       self.rx = b''
       self.ev = Event()
       self.err = None
       self.fail_write = False
+      self.fail_open = False
+      self.slow = False          # the next write blocks after the bytes are out, until the harness finishes it
+      self.blocked = False
+      self.wgate = Event()
+      self.wfail = False
       self.closed = False
 
     def open(self):
-      pass
+      if self.fail_open:
+        raise IOError('connection refused')
 
     def isOpen(self):
       return not self.closed
@@ -174,7 +209,26 @@ def _make_world():
       if self.fail_write:
         _emit('wr-fail')
         raise IOError('broken pipe')
-      _emit('wr', bytes(b))
+      b = bytes(b)
+      _emit('wr', b)
+      d = decode_written(_CUR['proto'], b)
+      if d[0] == 'req' and d[2] in self.inst.calls:
+        self.inst.calls[d[2]]['written'] = True
+      if self.slow:
+        self.slow = False
+        self.blocked = True
+        self.wgate.clear()
+        try:
+          self.wgate.wait()
+        finally:
+          self.blocked = False
+        if self.wfail:
+          self.wfail = False
+          raise IOError('connection reset during write')
+
+    def finish_write(self, ok):
+      self.wfail = not ok
+      self.wgate.set()
 
     def readAll(self, n):
       while len(self.rx) < n:
@@ -192,19 +246,50 @@ def _make_world():
       self.ev.set()
 
   class Stack(object):
-    """What a call's sink stack receives."""
+    """What a call's sink stack receives; optionally re-enters the sink (or raises) from inside the callback."""
 
-    def __init__(self, c):
+    def __init__(self, inst, cn, c, then):
+      self.inst = inst
+      self.cn = cn
       self.c = c
+      self.then = then
 
     def Push(self, *a):
       pass
 
+    def _done(self):
+      cl = self.inst.calls.get(self.c)
+      if cl is not None:
+        cl['done'] = True
+
+    def _react(self, stream_reply):
+      a, self.then = self.then, None
+      if not a:
+        return
+      if a[0] == 'raise':
+        if stream_reply:
+          _emit('note', 'callback-raises-' + ('BaseException' if a[1] == 'T' else 'Exception'))
+          raise (HarnessTimeout() if a[1] == 'T' else HarnessError('callback failed'))
+        self.then = a          # only reply deliveries raise (see the module docstring)
+      elif self.cn is self.inst.cn:
+        if a[0] == 'req':
+          _emit('note', 'reentrant-request')
+          self.inst.do_req(a)
+        elif a[0] == 'close':
+          _emit('note', 'reentrant-close')
+          _emit('begin', 'shutdown')
+          self.cn.sink.Close()
+          _emit('end')
+
     def AsyncProcessResponseStream(self, stream):
       _emit('deliver', self.c, bytes(stream.getvalue()))
+      self._done()
+      self._react(True)
 
     def AsyncProcessResponseMessage(self, msg):
       _emit('error', self.c, type(msg.error).__name__, str(msg.error))
+      self._done()
+      self._react(False)
 
     def AsyncProcessResponse(self, stream, msg):
       _emit('error', self.c, 'AsyncProcessResponse', '')
@@ -299,7 +384,7 @@ EDGE_TAGS = [2 ** 24 - 1, 2 ** 24 - 2, 255, 256, 65535, 65536, 4095]
 
 
 def _gen_pool(r, big=False):
-  mx = REAL_MAX if big else r.choice([3, 4, 5, 6, 7, 9])
+  mx = REAL_MAX if big else r.choice([2, 3, 4, 5, 6, 7, 9])
   ops = []
   held = []
   disciplined = r.random() < 0.5
@@ -316,82 +401,139 @@ def _gen_pool(r, big=False):
 
 
 FFWD_STARTS = [254, 255, 4094, 65532, 65533, 65534, 65535, 65536, 65537, 131070, 131071, 2 ** 20 - 1, 2 ** 23 - 2, 2 ** 23 - 1,
-               2 ** 24 - 40, 2 ** 24 - 12, 2 ** 24 - 7, 2 ** 24 - 5, 2 ** 24 - 4, 2 ** 24 - 3]
+               2 ** 24 - 40, 2 ** 24 - 12, 2 ** 24 - 7, 2 ** 24 - 5, 2 ** 24 - 4, 2 ** 24 - 3, 2 ** 24 - 2]
 
 
-def _gen_mux(r, nops, proto=None, mx=None, conc=None, start=None):
-  proto = proto or ('kafka' if r.random() < 0.15 else 'thriftmux')
-  if start is None and mx is None and r.random() < 0.3:
-    start = r.choice(FFWD_STARTS + [r.randrange(2, 2 ** 24 - 3)])     # real TagPool(2^24-1), high-water mark fast-forwarded
-  off = (start - 1) if start else 0
-  if mx is None and not start:
-    mx = r.choice([None, None, None, 4, 5, 6, 7])
-  conc = conc or r.choice([1, 2, 3, 5, 8])
+def _gen_ops(r, nops, proto, conc, off, lazy, idbase=0):
+  """One instance's op list."""
   style = r.choice(['mixed', 'mixed', 'timeouts', 'adversarial', 'steady'])
-  w = {'mixed': dict(req=24, send=26, fire=6, notify=6, recv=22, junk=1, ping=2, shutdown=1.5, reopen=1, m_after=3, m_before=2, m_late=2),
-       'timeouts': dict(req=20, send=20, fire=10, notify=10, recv=14, junk=0, ping=1, shutdown=1, reopen=1, m_after=8, m_before=6, m_late=4),
-       'adversarial': dict(req=20, send=18, fire=5, notify=5, recv=40, junk=2, ping=2, shutdown=1, reopen=1, m_after=2, m_before=2, m_late=2),
-       'steady': dict(req=30, send=32, fire=2, notify=2, recv=30, junk=0, ping=1, shutdown=0, reopen=0, m_after=1, m_before=1, m_late=1)}[style]
+  w = {'mixed': dict(req=24, send=26, fire=6, notify=6, recv=22, junk=1, ping=2, shutdown=1.5, reopen=1, m_after=3, m_before=2, m_late=2,
+                     wdone=2, recvmany=2, openagain=0.3),
+       'timeouts': dict(req=20, send=20, fire=10, notify=10, recv=14, junk=0, ping=1, shutdown=1, reopen=1, m_after=8, m_before=6, m_late=4,
+                        wdone=2, recvmany=1, openagain=0.2),
+       'adversarial': dict(req=20, send=18, fire=5, notify=5, recv=40, junk=2, ping=2, shutdown=1, reopen=1, m_after=2, m_before=2, m_late=2,
+                           wdone=1, recvmany=5, openagain=0.3),
+       'steady': dict(req=30, send=32, fire=2, notify=2, recv=30, junk=0, ping=1, shutdown=0, reopen=0, m_after=1, m_before=1, m_late=1,
+                      wdone=1, recvmany=2, openagain=0)}[style]
   names = list(w)
   weights = [w[k] for k in names]
   ops = []
-  nc = 0
+  st = {'nc': idbase, 'extra': idbase + 5000}
   live = []          # calls issued recently (targets for fire/notify)
+  plain = []         # calls without deadline (their message object may be dispatched again)
   outstanding = 0    # rough count to keep concurrency near `conc`
+
+  def new_req(dl=None, depth=0):
+    st['nc'] += 1
+    c = st['nc']
+    if dl is None:
+      dl = r.choices([0, 1, 2], [5, 4, 1])[0]
+    op = ['req', c, dl]
+    opts = {}
+    q = r.random()
+    if depth < 2 and q < 0.10:
+      # what the call's sink stack does from inside its completion callback
+      kind = r.choices(['req', 'raiseE', 'raiseT', 'close'], [6, 2, 2, 1])[0]
+      if kind == 'req':
+        st['extra'] += 1
+        sub = ['req', st['extra'], r.choice([0, 0, 1, 2])]
+        if r.random() < 0.3:
+          st['extra'] += 1
+          sub.append({'then': ['req', st['extra'], 0]})
+        opts['then'] = sub
+      elif kind == 'close':
+        opts['then'] = ['close']
+      else:
+        opts['then'] = ['raise', kind[-1]]
+    if dl == 0 and plain and r.random() < 0.08:
+      opts['reuse'] = r.choice(plain)
+    if opts:
+      op.append(opts)
+    live.append(c)
+    if dl == 0:
+      plain.append(c)
+    return op
+
+  def peer_tag():
+    q = r.random()
+    if q < 0.62:
+      tag = off + r.randrange(2, 3 + max(2, min(conc + 1, 9)))
+    elif q < 0.72:
+      tag = 1
+    elif q < 0.80:
+      tag = 0
+    elif q < 0.92:
+      tag = r.choice([0, off, off]) + r.randrange(2, 14)
+      if off and r.random() < 0.3:
+        tag &= r.choice([0xffff, 0xff, 0x7fffff])        # what a truncated tag would look like
+    else:
+      tag = r.choice(EDGE_TAGS + [r.randrange(0, 2 ** 24)])
+    if proto == 'kafka' and r.random() < 0.05:
+      tag = r.choice([-1, -2, 2 ** 31 - 1, -2 ** 31])
+    if proto == 'thriftmux':
+      tag = min(tag, 2 ** 24 - 1)
+    return tag
+
+  def opening_phase():
+    # requests (and expiring deadlines) while Open() is still pending, then one of the ways the open can end
+    for _ in range(r.choice([0, 1, 2, 3, 5])):
+      ops.append(new_req())
+      if r.random() < 0.25:
+        ops.append(['fire', r.choice(live)])
+      if r.random() < 0.1:
+        ops.append(r.choice([['send', 1], ['recv', -2, off + 2], ['ping'], ['notify', r.choice(live)]]))    # not applicable yet
+    ops.append(r.choice([['handshake', 'ok'], ['handshake', 'ok'], ['handshake', 'ok'], ['handshake', 'eof'], ['shutdown', 'close'],
+                         ['shutdown', 'eof']]))
+
+  if lazy:
+    opening_phase()
   for _ in range(nops):
     k = r.choices(names, weights)[0]
     if k == 'req' and outstanding >= conc and r.random() < 0.85:
       k = 'recv'
     if k in ('m_after', 'm_before', 'm_late'):
       # scripted time-out scenarios (the other ops still interleave: the queue may hold older entries)
-      nc += 1
-      live.append(nc)
+      rq = new_req(1)
+      nc = rq[1]
       outstanding += 1
       sends = [['send', 1]] * r.choice([1, 1, 2, 3])
       noise = [['recv', r.choice(RTYPES), r.choice([0, off]) + r.randrange(0, 8)]] if r.random() < 0.3 else []
       if k == 'm_after':      # written, then the deadline fires: Tdiscarded, tag stays leased until the peer answers
-        ops += [['req', nc, 1]] + sends + noise + [['fire', nc], ['notify', nc]] + sends
+        ops += [rq] + sends + noise + [['fire', nc], ['notify', nc]] + sends
       elif k == 'm_before':   # the deadline fires while the request is still queued: dropped, tag released
-        ops += [['req', nc, 1]] + noise + [['fire', nc]] + sends + [['notify', nc]]
+        ops += [rq] + noise + [['fire', nc]] + sends + [['notify', nc]]
       else:                   # the peer answers late / twice, the tag is recycled by the next request
         t = off + r.randrange(2, 3 + conc)
-        ops += [['req', nc, 1]] + sends + [['fire', nc], ['notify', nc], ['recv', -2, t]] + noise + [['req', nc + 1, 0], ['recv', -2, t]] + sends
-        nc += 1
-        live.append(nc)
+        ops += [rq] + sends + [['fire', nc], ['notify', nc], ['recv', -2, t]] + noise + [new_req(0), ['recv', -2, t]] + sends
       continue
     if k == 'req':
-      nc += 1
-      dl = r.choices([0, 1, 2], [5, 4, 1])[0]
-      ops.append(['req', nc, dl])
-      live.append(nc)
-      live = live[-10:]
+      ops.append(new_req())
+      live[:] = live[-10:]
+      plain[:] = plain[-6:]
       outstanding += 1
     elif k == 'send':
-      ops.append(['send', 0 if r.random() < 0.02 else 1])
+      q = r.random()
+      ops.append(['send', 0 if q < 0.02 else 2 if q < 0.07 else 1])
+    elif k == 'wdone':
+      ops.append(['wdone', 0 if r.random() < 0.2 else 1])
     elif k in ('fire', 'notify'):
       if live:
         ops.append([k, r.choice(live)])
     elif k == 'recv':
-      q = r.random()
-      if q < 0.62:
-        tag = off + r.randrange(2, 3 + max(2, min(conc + 1, 9)))
-      elif q < 0.72:
-        tag = 1
-      elif q < 0.80:
-        tag = 0
-      elif q < 0.92:
-        tag = r.choice([0, off, off]) + r.randrange(2, 14)
-        if off and r.random() < 0.3:
-          tag &= r.choice([0xffff, 0xff, 0x7fffff])        # what a truncated tag would look like
-      else:
-        tag = r.choice(EDGE_TAGS + [r.randrange(0, 2 ** 24)])
-      if proto == 'kafka' and r.random() < 0.05:
-        tag = r.choice([-1, -2, 2 ** 31 - 1, -2 ** 31])
-      mt = r.choice(RTYPES)
-      ops.append(['recv', mt, tag])
+      tag = peer_tag()
+      op = ['recv', r.choice(RTYPES), tag]
+      if r.random() < 0.12:
+        op.append(r.randrange(1, 9))                     # the frame arrives in two pieces, cut after this many bytes
+      ops.append(op)
       if r.random() < 0.12:
         ops.append(['recv', r.choice(RTYPES), tag])      # duplicate answer
       outstanding = max(0, outstanding - 1)
+    elif k == 'recvmany':
+      fr = [[r.choice(RTYPES), peer_tag()] for _ in range(r.choice([2, 2, 3, 4]))]
+      if r.random() < 0.3:
+        fr.append(list(fr[0]))
+      ops.append(['recvmany', fr])                       # several frames readable at once
+      outstanding = max(0, outstanding - len(fr))
     elif k == 'junk':
       ops.append(['junk', r.choice([0, 1, 2, 3])])
     elif k == 'ping':
@@ -400,18 +542,53 @@ def _gen_mux(r, nops, proto=None, mx=None, conc=None, start=None):
       ops.append(['shutdown', r.choice(['close', 'eof'])])
       outstanding = 0
       for _x in range(r.choice([0, 0, 1, 2, 4])):       # a few ops on the dead connection, then usually a new one
-        ops.append(r.choice([['req', nc + 1000 + _x, 0], ['notify', r.choice(live or [1])], ['fire', r.choice(live or [1])],
-                             ['recv', -2, off + 2], ['send', 1]]))
+        st['extra'] += 1
+        ops.append(r.choice([['req', st['extra'], 0], ['notify', r.choice(live or [1])], ['fire', r.choice(live or [1])],
+                             ['recv', -2, off + 2], ['send', 1], ['openagain'], ['shutdown', 'close']]))
       if r.random() < 0.8:
-        ops.append(['reopen'])
+        mode = r.choices([0, 1, 2], [6, 3, 1])[0]
+        ops.append(['reopen', mode])
+        if mode == 1:
+          opening_phase()
     elif k == 'reopen':
-      ops.append(['reopen'])
-  for op in ops:
-    if op[0] == 'recv':
-      op[2] = min(op[2], 2 ** 24 - 1) if proto == 'thriftmux' else op[2]
+      ops.append(['reopen', r.choice([0, 0, 1, 2])])
+    elif k == 'openagain':
+      ops.append(['openagain'])
+  if proto == 'thriftmux':
+    for op in ops:
+      if op[0] == 'recv':
+        op[2] = max(0, min(op[2], 2 ** 24 - 1))
+  return ops
+
+
+def _gen_mux(r, nops, proto=None, mx=None, conc=None, start=None):
+  proto = proto or ('kafka' if r.random() < 0.15 else 'thriftmux')
+  if start is None and mx is None and r.random() < 0.3:
+    start = r.choice(FFWD_STARTS + [r.randrange(2, 2 ** 24 - 3)])     # real TagPool(2^24-1), high-water mark fast-forwarded
+  off = (start - 1) if start else 0
+  if mx is None and not start:
+    mx = r.choice([None, None, None, None, None, 2, 3, 4, 5, 6, 7])
+  conc = conc or r.choice([1, 2, 3, 5, 8])
+  lazy = 1 if r.random() < 0.2 else 0
+  ops = _gen_ops(r, nops, proto, conc, off, lazy)
+  if r.random() < 0.2:
+    # a second sink instance in the same process, driven in between: neither may disturb the other
+    other = _gen_ops(r, max(6, nops // 2), proto, r.choice([1, 2, 4]), off, lazy)
+    merged = []
+    i = j = 0
+    while i < len(ops) or j < len(other):
+      if j >= len(other) or (i < len(ops) and r.random() < 0.6):
+        merged.append(ops[i])
+        i += 1
+      else:
+        merged.append(['B'] + other[j])
+        j += 1
+    ops = merged
   c = {'kind': 'mux', 'proto': proto, 'max': mx, 'ops': ops}
   if start:
     c['start'] = start
+  if lazy:
+    c['open'] = 1
   return c
 
 
@@ -443,7 +620,7 @@ def gen_cases(tier, seed):
   quick = tier == 'quick'
   out = []
   # ---- suite (a)
-  for i in range(500 if quick else 3000):
+  for i in range(400 if quick else 3000):
     r = C.case_rng(seed, PID + 'pool', i)
     out.append(_gen_pool(r, big=(i % 5 == 0)))
   for mx in [2, 3, 4, 5, 9]:
@@ -457,7 +634,7 @@ def gen_cases(tier, seed):
     out.append({'kind': 'fill', 'max': REAL_MAX, 'n': REAL_MAX - 2})     # the last tag: 2^24-2
     out.append({'kind': 'fill', 'max': REAL_MAX, 'n': REAL_MAX - 1})     # one more is refused
   # ---- suite (b)
-  for i in range(1800 if quick else 16000):
+  for i in range(1500 if quick else 16000):
     r = C.case_rng(seed, PID + 'mux', i)
     out.append(_gen_mux(r, r.choice([12, 25, 40, 70, 120])))
   for i in range(3 if quick else 12):
@@ -515,6 +692,15 @@ def decode_written(proto, b):
     return ['bad', b.hex()]
 
 
+def decode_peer(proto, body):
+  """The frame body handed to _ProcessReply -> ['junk'] or [mtype, tag] (what the peer said, parsed by the harness)."""
+  if len(body) < 4:
+    return ['junk']
+  if proto == 'thriftmux':
+    return [body[0] - 256 if body[0] >= 128 else body[0], int.from_bytes(body[1:4], 'big')]
+  return [0, struct.unpack('!i', body[:4])[0]]
+
+
 def peer_frame(proto, mtype, tag):
   if proto == 'thriftmux':
     body = struct.pack('!b', mtype) + int(tag).to_bytes(3, 'big') + b'r'
@@ -565,10 +751,6 @@ def _run_fill(case):
   return {'last': last, 'refused': refused, 'after': after, 'contiguous': contiguous}
 
 
-class _Conn(object):
-  pass
-
-
 def _settle():
   idle = _S['gevent'].idle
   idle()
@@ -576,39 +758,285 @@ def _settle():
   idle()
 
 
-def _open_conn(proto):
-  cn = _Conn()
-  cn.sock = _S['FakeSocket']()
-  nq = len(_CUR['queues'])
-  if proto == 'thriftmux':
-    cn.sink = _S['tms'].SocketTransportSink(cn.sock, 'svc')
-    cn.sink._ping_timeout = 1e9          # the ping watchdog (5 s of real time) plays no part in these runs
-  else:
-    cn.sink = _S['ks'].KafkaTransportSink(cn.sock, 'svc')
-  cn.closed = False
-  mark = len(_CUR['ev'])
-  ar = cn.sink.Open()
-  _settle()
-  if proto == 'thriftmux':
-    _CUR['queues'][-1].grant()
+class _Conn(object):
+  pass
+
+
+class _Inst(object):
+  """One sink instance (and its successors after 're-open on a new sink') driven by the op list."""
+
+  def __init__(self, name, proto):
+    self.name = name
+    self.proto = proto
+    self.calls = {}       # c -> dict(evt, fired, cn, dl, msg, written, done)
+    self.keep = []        # keeps Observables alive so that id() stays unique
+    self.conns = []
+    self.cn = None
+    self.handshakes = []
+
+  # ---- connections -------------------------------------------------------------------------
+  def open_conn(self, mode):
+    proto = self.proto
+    cn = _Conn()
+    cn.sock = _S['FakeSocket'](self)
+    cn.sock.fail_open = (mode == 2)
+    if proto == 'thriftmux':
+      cn.sink = _S['tms'].SocketTransportSink(cn.sock, 'svc' + self.name)
+      cn.sink._ping_timeout = 1e9          # the ping watchdog (5 s of real time) plays no part in these runs
+    else:
+      cn.sink = _S['ks'].KafkaTransportSink(cn.sock, 'svc' + self.name)
+    real_process = cn.sink._ProcessReply
+
+    def process_reply(stream):            # marks the moment a peer frame is looked at; the real method does the work
+      _emit('frame', bytes(stream.getvalue()))
+      return real_process(stream)
+    cn.sink._ProcessReply = process_reply
+    cn.closed = False
+    cn.again = False
+    cn.opening = False
+    cn.deferred = {}
+    cn.hs = []
+    self.cn = cn
+    self.conns.append(cn)
+    nq = len(_CUR['queues'])
+    if mode == 2:
+      _emit('begin', 'shutdown')            # the connection is born dead: socket.open() raises
+    else:
+      cn.saved, _CUR['ev'] = _CUR['ev'], cn.hs
+    cn.open_ar = cn.sink.Open()
+    cn.queue = _CUR['queues'][-1] if len(_CUR['queues']) > nq else None
+    real_wait = cn.open_ar.wait
+
+    def wait(*a, **kw):                     # a request that was waiting for Open() resumes here
+      ret = real_wait(*a, **kw)
+      c = cn.deferred.get(id(_S['gevent'].getcurrent()))
+      if c is not None:
+        _emit('begin', 'req', c, self.dl_now(c))
+      return ret
+    try:
+      cn.open_ar.wait = wait
+    except AttributeError:
+      pass
     _settle()
-    cn.sock.feed(peer_frame(proto, -65, 1))
+    if mode == 2:
+      _emit('end')
+      cn.closed = True
+      return
+    if proto == 'kafka' or mode == 0:
+      if proto == 'thriftmux':
+        cn.queue.grant()
+        _settle()
+        cn.sock.feed(peer_frame(proto, -65, 1))
+        _settle()
+      _CUR['ev'] = cn.saved
+      self.record_handshake(cn)
+    else:
+      cn.opening = True
+      _CUR['ev'] = cn.saved
+
+  def record_handshake(self, cn):
+    hs = [decode_written(self.proto, e[1]) for e in cn.hs if e[0] == 'wr']
+    ok = cn.open_ar.ready() and cn.open_ar.successful() and cn.sink.state == _S['ChannelState'].Open and cn.queue is not None
+    self.handshakes.append([hs, bool(ok)])
+
+  def handshake(self, how):
+    cn = self.cn
+    if how == 'ok':
+      saved, _CUR['ev'] = _CUR['ev'], cn.hs
+      cn.queue.grant()
+      _settle()
+      _CUR['ev'] = saved
+      cn.opening = False
+      cn.sock.feed(peer_frame(self.proto, -65, 1))
+      _settle()
+      self.record_handshake(cn)
+    else:
+      self.shutdown('eof')
+
+  def shutdown(self, how):
+    cn = self.cn
+    cn.opening = False
+    _emit('begin', 'shutdown')
+    if how == 'close':
+      cn.sink.Close()
+    else:
+      cn.sock.err = IOError('connection reset by peer')
+      cn.sock.ev.set()
     _settle()
-  hs = [decode_written(proto, e[1]) for e in _CUR['ev'][mark:] if e[0] == 'wr']
-  ok = ar.ready() and ar.successful() and cn.sink.state == _S['ChannelState'].Open and len(_CUR['queues']) == nq + 1
-  del _CUR['ev'][mark:]
-  return cn, hs, bool(ok)
+    _emit('end')
+    cn.opening = False
+
+  # ---- requests ----------------------------------------------------------------------------
+  def dl_now(self, c):
+    cl = self.calls[c]
+    return 0 if cl['evt'] is None else 2 if cl['fired'] else 1
+
+  def do_req(self, op):
+    c, dl = op[1], op[2]
+    opts = op[3] if len(op) > 3 else {}
+    if c in self.calls:
+      return
+    cn = self.cn
+    old = self.calls.get(opts.get('reuse'))
+    if dl == 0 and old and old['dl'] == 0 and old['written'] and old['done']:
+      msg = old['msg']                     # the same message object dispatched again (as a retrying sink does)
+      _emit('note', 'message-object-reused')
+    else:
+      msg = _S['MethodCallMessage'](None, 'm', (), {})
+    evt = None
+    if dl:
+      evt = _S['ob'].Observable()
+      self.keep.append(evt)
+      _CUR['evt_call'][id(evt)] = (self.name, c)
+      msg.properties[_S['Deadline'].EVENT_KEY] = evt
+    self.calls[c] = {'evt': evt, 'fired': False, 'cn': cn, 'dl': dl, 'msg': msg, 'written': False, 'done': False}
+    if dl >= 2:
+      evt.Set(True)
+      self.calls[c]['fired'] = True
+    buf = io.BytesIO()
+    buf.write(struct.pack('!i', c))
+    stack = _S['Stack'](self, cn, c, opts.get('then'))
+    headers = {_S['TransportHeaders'].MessageType: REQ_TYPE[self.proto]}
+
+    def issue(deferred):
+      if not deferred:
+        _emit('begin', 'req', c, self.dl_now(c))
+      try:
+        cn.sink.AsyncProcessRequest(stack, msg, buf, headers)
+      except Exception as e:
+        _emit('raise', c, str(e))
+      _emit('end')
+    if cn.opening:
+      g = _S['gevent'].Greenlet(issue, True)
+      cn.deferred[id(g)] = c
+      self.keep.append(g)
+      g.start()
+      _settle()
+    else:
+      issue(False)
+
+  # ---- one op ------------------------------------------------------------------------------
+  def run_op(self, op):
+    cn = self.cn
+    k = op[0]
+    proto = self.proto
+    live = not cn.closed and not cn.opening
+    if k == 'req':
+      self.do_req(op)
+    elif k == 'handshake':
+      if cn.opening:
+        self.handshake(op[1])
+    elif k == 'shutdown':
+      if not cn.closed:
+        self.shutdown(op[1])
+    elif k == 'fire':
+      cl = self.calls.get(op[1])
+      if cl and cl['cn'] is cn and cl['evt'] is not None and not cl['fired']:
+        if not cn.opening:
+          _emit('begin', 'fire', op[1])
+        cl['fired'] = True
+        cl['evt'].Set(True)          # what ClientTimeoutSink._TimeoutHelper does first
+        if not cn.opening:
+          _emit('end')
+    elif k == 'reopen':
+      if cn.closed:
+        _emit('begin', 'reopen')
+        _emit('end')
+        mode = op[1] if len(op) > 1 else 0
+        self.open_conn(mode)
+    elif k == 'openagain':
+      if cn.closed and not cn.again:
+        cn.again = True
+        cn.sock.fail_open = False       # the connect itself works this time; the sink object stays Closed all the same
+        _emit('begin', 'openagain')
+        cn.sink.Open()
+        _settle()
+        _emit('end')
+    elif k == 'notify':
+      cl = self.calls.get(op[1])
+      pend = _CUR['pending'].get((self.name, op[1]))
+      if cl and cl['cn'] is cn and pend and not cn.opening:
+        _emit('begin', 'notify', op[1])
+        fn, a, kw = pend.pop(0)
+        fn(*a, **kw)
+        _settle()
+        _emit('end')
+    elif not live:
+      pass
+    elif k == 'send':
+      if not cn.sock.blocked and cn.queue.qsize() > 0:
+        _emit('begin', 'send', 0 if op[1] == 0 else 1)
+        cn.sock.fail_write = (op[1] == 0)
+        cn.sock.slow = (op[1] == 2)
+        cn.queue.grant()
+        _settle()
+        cn.sock.fail_write = False
+        cn.sock.slow = False
+        _emit('end')
+    elif k == 'wdone':
+      if cn.sock.blocked:
+        _emit('note', 'slow-write-finished-' + ('ok' if op[1] else 'failed'))
+        if not op[1]:
+          _emit('begin', 'shutdown')
+        cn.sock.finish_write(bool(op[1]))
+        _settle()
+        if not op[1]:
+          _emit('end')
+    elif k == 'recv':
+      fr = peer_frame(proto, op[1], op[2])
+      cut = op[3] if len(op) > 3 else 0
+      if 0 < cut < len(fr):
+        cn.sock.feed(fr[:cut])
+        _settle()
+        cn.sock.feed(fr[cut:])
+      else:
+        cn.sock.feed(fr)
+      _settle()
+    elif k == 'recvmany':
+      cn.sock.feed(b''.join(peer_frame(proto, mt, tag) for mt, tag in op[1]))
+      _settle()
+    elif k == 'junk':
+      if proto == 'thriftmux':
+        n = op[1]
+        cn.sock.feed(struct.pack('!i', n) + b'\xfe' * n)
+        _settle()
+    elif k == 'ping':
+      if proto == 'thriftmux':
+        _emit('begin', 'ping')
+        cn.sink._SendPingMessage()
+        _settle()
+        _emit('end')
+    else:
+      raise ValueError(k)
+
+  def cleanup(self):
+    for cn in self.conns:
+      try:
+        if cn.sock.blocked:
+          cn.sock.finish_write(True)
+        cn.sink.Close()
+      except Exception:
+        pass
+    for g in self.keep:
+      if hasattr(g, 'kill'):
+        g.kill(block=False)
 
 
 def _translate(proto, raw):
-  """Raw recorder entries of one op -> observable events (frames decoded); 'take' without a write attempt = dropped."""
+  """Raw recorder entries of one op -> observable events (frames decoded) and the markers of what was done;
+  'take' without a write attempt = dropped."""
   out = []
   took = None
   attempted = False
+
+  def flush():
+    if took is not None and not attempted:
+      out.append(['drop'] + took[1:] if took[0] == 'req' else ['drop-other'] + took)
   for e in raw:
     if e[0] == 'enq':
       out.append(['enq'] + decode_written(proto, e[1]))
     elif e[0] == 'take':
+      flush()
       took = decode_written(proto, e[1])
       attempted = False
     elif e[0] == 'wr':
@@ -618,113 +1046,53 @@ def _translate(proto, raw):
       attempted = True
     elif e[0] == 'deliver':
       out.append(['deliver', e[1], e[2].hex()])
+    elif e[0] == 'frame':
+      out.append(['frame'] + decode_peer(proto, e[1]))
+    elif e[0] == 'end' and took is not None:
+      flush()
+      took = None
+      out.append(e)
     else:
       out.append(e)
-  if took is not None and not attempted:
-    out.append(['drop'] + took[1:] if took[0] == 'req' else ['drop-other'] + took)
+  flush()
   return out
 
 
 def _run_mux(case):
   proto = case['proto']
-  ev = []
-  _CUR.update(ev=ev, queues=[], pending={}, evt_call={}, helpers=[], pool_args=[], max=case.get('max'), start=case.get('start'))
-  res = {'steps': [], 'handshakes': []}
-  calls = {}      # c -> dict(evt, fired, conn)
-  keep = []       # keeps Observables alive so that id() stays unique
-  conns = []
+  _CUR.update(ev=None, queues=[], pending={}, evt_call={}, helpers=[], pool_args=[], max=case.get('max'), start=case.get('start'),
+              proto=proto)
+  res = {'steps': []}
+  insts = {}
   try:
-    cn, hs, ok = _open_conn(proto)
-    conns.append(cn)
-    res['handshakes'].append([hs, ok])
     for op in case['ops']:
-      mark = len(ev)
-      k = op[0]
-      if k == 'req':
-        c, dl = op[1], op[2]
-        if c not in calls:
-          msg = _S['MethodCallMessage'](None, 'm', (), {})
-          evt = None
-          if dl:
-            evt = _S['ob'].Observable()
-            keep.append(evt)
-            _CUR['evt_call'][id(evt)] = c
-            msg.properties[_S['Deadline'].EVENT_KEY] = evt
-          calls[c] = {'evt': evt, 'fired': False, 'conn': len(conns)}
-          if dl >= 2:
-            evt.Set(True)
-            calls[c]['fired'] = True
-          buf = io.BytesIO()
-          buf.write(struct.pack('!i', c))
-          try:
-            cn.sink.AsyncProcessRequest(_S['Stack'](c), msg, buf, {_S['TransportHeaders'].MessageType: REQ_TYPE[proto]})
-          except Exception as e:
-            _emit('raise', c, str(e))
-      elif k == 'send':
-        q = _CUR['queues'][-1]
-        if not cn.closed and q.qsize() > 0:
-          cn.sock.fail_write = not op[1]
-          q.grant()
-          _settle()
-          cn.sock.fail_write = False
-      elif k == 'fire':
-        cl = calls.get(op[1])
-        if cl and cl['conn'] == len(conns) and cl['evt'] is not None and not cl['fired']:
-          cl['fired'] = True
-          cl['evt'].Set(True)          # what ClientTimeoutSink._TimeoutHelper does first
-      elif k == 'notify':
-        cl = calls.get(op[1])
-        pend = _CUR['pending'].get(op[1])
-        if cl and cl['conn'] == len(conns) and pend:
-          fn, a, kw = pend.pop(0)
-          fn(*a, **kw)
-          _settle()
-      elif k == 'recv':
-        if not cn.closed:
-          cn.sock.feed(peer_frame(proto, op[1], op[2]))
-          _settle()
-      elif k == 'junk':
-        if not cn.closed and proto == 'thriftmux':
-          n = op[1]
-          cn.sock.feed(struct.pack('!i', n) + b'\xfe' * n)
-          _settle()
-      elif k == 'ping':
-        if not cn.closed and proto == 'thriftmux':
-          cn.sink._SendPingMessage()
-          _settle()
-      elif k == 'shutdown':
-        if not cn.closed:
-          if op[1] == 'close':
-            cn.sink.Close()
-          else:
-            cn.sock.err = IOError('connection reset by peer')
-            cn.sock.ev.set()
-          _settle()
-      elif k == 'reopen':
-        if cn.closed:
-          cn, hs, ok = _open_conn(proto)
-          conns.append(cn)
-          res['handshakes'].append([hs, ok])
-      else:
-        raise ValueError(k)
-      raw = ev[mark:]
+      name = 'A'
+      if op and op[0] == 'B':
+        name, op = 'B', op[1:]
+      raw = []
+      _CUR['ev'] = raw
+      inst = insts.get(name)
+      if inst is None:
+        inst = insts[name] = _Inst(name, proto)
+        inst.open_conn(1 if case.get('open') else 0)
+      inst.run_op(op)
+      cn = inst.cn
       if any(e[0] == 'closed' for e in raw):
         cn.closed = True
+        cn.opening = False
       if not cn.closed and cn.sink.state == _S['ChannelState'].Closed:
         cn.closed = True
-        raw = raw + [['closed-without-socket-close']]
+        raw.append(['closed-without-socket-close'])
       res['steps'].append(_translate(proto, raw))
     res['pool_args'] = list(_CUR['pool_args'])
+    res['handshakes'] = {n: i.handshakes for n, i in insts.items()}
   finally:
     _CUR['ev'] = None
     _CUR['evt_call'] = None
     _CUR['max'] = None
     _CUR['start'] = None
-    for cn in conns:
-      try:
-        cn.sink.Close()
-      except Exception:
-        pass
+    for inst in insts.values():
+      inst.cleanup()
     for g in _CUR['helpers'] or []:
       g.kill(block=False)
     _CUR['helpers'] = None
@@ -744,6 +1112,61 @@ def run_impl(case):
   if k == 'mux':
     return _run_mux(case)
   raise ValueError(k)
+
+
+# ---------------------------------------------------------------------------------------------
+# what was done, in model terms: the markers of one op as a list of (label, own events)
+# ---------------------------------------------------------------------------------------------
+class _Node(object):
+  def __init__(self, label, frame=False):
+    self.label = label
+    self.own = []
+    self.frame = frame
+
+
+def linearise(evs):
+  """Events of one op -> [(label tuple, own events)] in the order the actions began.  A callback that re-enters the sink
+  is a nested begin/end pair: its events are taken out of the enclosing action (which, for all re-entrant paths of this
+  sink, has finished its own state changes when the callback runs)."""
+  order = []
+  stack = []
+  for e in evs:
+    if e[0] == 'note':
+      continue
+    if e[0] == 'begin':
+      n = _Node(tuple(e[1:]))
+      order.append(n)
+      stack.append(n)
+    elif e[0] == 'frame':
+      while stack and stack[-1].frame:
+        stack.pop()
+      n = _Node(tuple(e), True)
+      order.append(n)
+      stack.append(n)
+    elif e[0] == 'end':
+      while stack and stack[-1].frame:
+        stack.pop()
+      if stack:
+        stack.pop()
+    else:
+      if not stack:
+        n = _Node(('orphan',))
+        order.append(n)
+        n.own.append(e)
+      else:
+        stack[-1].own.append(e)
+  return [(n.label, n.own) for n in order]
+
+
+def _split(case, obs):
+  """-> {instance: [(op index, op, [(label, own events)])]}"""
+  out = {}
+  for i, (op, evs) in enumerate(zip(case['ops'], obs['steps'])):
+    name = 'A'
+    if op and op[0] == 'B':
+      name, op = 'B', op[1:]
+    out.setdefault(name, []).append((i, op, linearise(evs)))
+  return out
 
 
 # ---------------------------------------------------------------------------------------------
@@ -809,19 +1232,19 @@ def _monitor_fill(case, obs):
   return v
 
 
-def _monitor_mux(case, obs):
+def _monitor_inst(case, name, items, handshakes):
   v = []
   proto = case['proto']
   bound = (case.get('max') or REAL_MAX) - 1        # highest tag a request may carry
   bound = min(bound, 2 ** 24 - 2)
+  cur = [0, None]
 
-  def bad(sig, i, msg):
-    v.append((sig, 'op %d %s: %s' % (i, case['ops'][i] if i >= 0 else '', msg)))
+  def bad(sig, msg):
+    v.append((sig, 'op %d %s%s: %s' % (cur[0], '' if name == 'A' else '(second sink) ', cur[1], msg)))
 
-  for a in obs.get('pool_args', []):
-    if a != REAL_MAX:
-      v.append(('pool-size-constant', 'the sink builds TagPool(%r), expected 2^24-1' % (a,)))
-  for hs, ok in obs['handshakes']:
+  for hs, ok in handshakes:
+    if not hs and not ok:
+      continue                                      # an open that failed (refused, EOF, closed meanwhile): nothing was sent
     if proto == 'thriftmux' and (hs != [['ping', 1, 0]] or not ok):
       v.append(('handshake', 'open wrote %s (expected one Tping on tag 1), opened=%s' % (hs, ok)))
     if proto == 'kafka' and (hs or not ok):
@@ -837,118 +1260,135 @@ def _monitor_mux(case, obs):
   fired = set()
   peak = 0
   closed = False
-  for i, (op, evs) in enumerate(zip(case['ops'], obs['steps'])):
-    k = op[0]
-    if k == 'reopen' and closed:
-      held, free, hi, peak, closed = {}, set(), hi0, 0, False
-    if k == 'fire' or (k == 'req' and op[2] >= 2):
-      fired.add(op[1])
-    # what the peer frame of this op answers (decided on the wire, before looking at what the client did)
-    answered = None
-    if k == 'recv' and not closed:
-      mt, tag = op[1], op[2]
-      is_ping_reply = proto == 'thriftmux' and tag == 1 and mt == -65
-      if not is_ping_reply and (proto == 'kafka' or tag != 0) and tag in held:
-        answered = held.pop(tag)
-        free.add(tag)
-    delivered = []
-    dropped_tags = [leased.get(e[2]) for e in evs if e[0] == 'drop']
-    for e in evs:
-      if e[0] == 'lease':
-        if k != 'req':
-          bad('unexpected-event', i, 'TagPool.get() called outside AsyncProcessRequest')
+  for i, op, nodes in items:
+    cur[0], cur[1] = i, op
+    dropped_tags = [leased.get(e[2]) for _l, own in nodes for e in own if e[0] == 'drop']
+    for label, own in nodes:
+      k = label[0]
+      answered = None
+      frame_tag = None
+      if k == 'reopen':
+        held, free, hi, peak, closed = {}, set(), hi0, 0, False
+      elif k == 'fire' or (k == 'req' and label[2] >= 2):
+        fired.add(label[1])
+      elif k == 'frame' and label[1] != 'junk' and not closed:
+        # what this peer frame answers (decided on the wire, before looking at what the client did)
+        mt, tag = label[1], label[2]
+        frame_tag = tag
+        is_ping_reply = proto == 'thriftmux' and tag == 1 and mt == -65
+        if not is_ping_reply and (proto == 'kafka' or tag != 0) and tag in held:
+          answered = held.pop(tag)
+          free.add(tag)
+      elif k == 'orphan':
+        bad('unexpected-event', 'the sink did %r although nothing was asked of it' % (own[:2],))
+      delivered = []
+      last_lease = None
+      for e in own:
+        if e[0] == 'lease':
+          if k != 'req':
+            bad('unexpected-event', 'TagPool.get() called outside AsyncProcessRequest')
+          last_lease = e[1]
+        elif e[0] == 'release':
+          t = e[1]
+          by_peer = k == 'frame' and frame_tag == t and answered is not None
+          if not by_peer and not (k == 'send' and t in dropped_tags):
+            bad('release-outside-release-point', 'tag %r returned to the pool, but the peer did not answer it in this step and no '
+                'unsent timed-out request holding it was dropped' % (t,))
+        elif e[0] == 'enq' and e[1] == 'req':
+          t, c = e[2], e[3]
+          if k != 'req' or c != label[1]:
+            bad('unexpected-frame', 'request frame queued for call %s' % c)
+          leased[c] = last_lease
+          if last_lease != t:
+            bad('wire-tag-differs-from-lease', 'call %d leased tag %s from the pool but its frame header carries tag %d' % (c, last_lease, t))
+          if t in (0, 1):
+            bad('reserved-tag', 'request of call %d was given the reserved tag %d' % (c, t))
+          elif not 2 <= t <= bound:
+            bad('tag-out-of-range', 'request of call %d was given tag %d (allowed 2..%d)' % (c, t, bound))
+          if t in held:
+            bad('tag-reissued-while-held', 'tag %d given to call %d while call %d holds it unanswered' % (t, c, held[t]))
+          if t in free:
+            free.discard(t)
+          elif t == hi + 1:
+            if free:
+              bad('fresh-tag-while-released-available', 'new tag %d although %s were released and are unused' % (t, sorted(free)))
+            hi = t
+          else:
+            if t not in held:
+              bad('tag-neither-recycled-nor-next', 'tag %d was never released and is not the next tag %d' % (t, hi + 1))
+            hi = max(hi, t)
+          held[t] = c
+          queued[c] = t
+          peak = max(peak, len(held))
+        elif e[0] == 'enq' and e[1] == 'discard':
+          if e[2] != 0:
+            bad('discard-frame-tag', 'Tdiscarded queued with frame tag %d' % e[2])
+          if k != 'notify' or leased.get(label[1]) != e[3]:
+            bad('discard-names-wrong-tag', 'Tdiscarded names tag %d; the timed-out call leased %s' % (e[3], leased.get(label[1]) if k == 'notify' else None))
+        elif e[0] == 'enq' and e[1] == 'ping':
+          if e[2] != 1:
+            bad('ping-tag', 'Tping queued on tag %d' % e[2])
+        elif e[0] == 'wr' and e[1] == 'req':
+          t, c = e[2], e[3]
+          if t in (0, 1):
+            bad('reserved-tag', 'request of call %d written with the reserved tag %d' % (c, t))
+          elif not 2 <= t <= bound:
+            bad('tag-out-of-range', 'request of call %d written with tag %d (allowed 2..%d)' % (c, t, bound))
+          if queued.get(c) != t:
+            bad('written-tag-differs', 'call %d written with tag %d but queued with %s' % (c, t, queued.get(c)))
+          if leased.get(c) != t:
+            bad('wire-tag-differs-from-lease', 'call %d leased tag %s from the pool but is written with tag %d' % (c, leased.get(c), t))
+          other = held.get(t)
+          if other is not None and other != c and other in written:
+            bad('duplicate-tag-on-wire', 'call %d written with tag %d while the written request of call %d is unanswered on it' % (c, t, other))
+          if t > hi0 + peak:
+            bad('reuse-bound', 'tag %d written although at most %d requests were ever unanswered together (pool started at %d)' % (t, peak, hi0))
+          written.add(c)
+        elif e[0] == 'wr' and e[1] == 'discard':
+          if e[2] != 0:
+            bad('discard-frame-tag', 'Tdiscarded written with frame tag %d' % e[2])
+        elif e[0] == 'wr' and e[1] == 'ping':
+          if e[2] != 1:
+            bad('ping-tag', 'Tping written on tag %d' % e[2])
+        elif e[0] == 'drop':
+          t, c = e[1], e[2]
+          if c not in fired:
+            bad('dropped-without-timeout', 'request of call %d left the queue unwritten although its deadline never fired' % c)
+          if held.get(t) == c:        # never written: the tag is reusable
+            del held[t]
+            free.add(t)
+        elif e[0] == 'deliver':
+          delivered.append(e[1])
+        elif e[0] == 'raise':
+          if free or hi != bound or e[2] != 'No tags left in pool.':
+            bad('request-refused', 'AsyncProcessRequest raised %r with %d released tags, high-water mark %d' % (e[2], len(free), hi))
+        elif e[0] == 'closed':
+          closed = True
+          held = {}
+        elif e[0] in ('error',):
+          pass
+        elif e[0] in ('enq', 'wr') and e[1] == 'bad':
+          bad('undecodable-frame', 'frame %s' % e[2])
         else:
-          leased[op[1]] = e[1]
-      elif e[0] == 'release':
-        t = e[1]
-        by_peer = k == 'recv' and op[2] == t and answered is not None
-        if not by_peer and t not in dropped_tags:
-          bad('release-outside-release-point', i, 'tag %r returned to the pool, but the peer did not answer it in this step and no '
-              'unsent timed-out request holding it was dropped' % (t,))
-      elif e[0] == 'enq' and e[1] == 'req':
-        t, c = e[2], e[3]
-        if k != 'req' or c != op[1]:
-          bad('unexpected-frame', i, 'request frame queued for call %s' % c)
-        if leased.get(c) != t:
-          bad('wire-tag-differs-from-lease', i, 'call %d leased tag %s from the pool but its frame header carries tag %d' % (c, leased.get(c), t))
-        if t in (0, 1):
-          bad('reserved-tag', i, 'request of call %d was given the reserved tag %d' % (c, t))
-        elif not 2 <= t <= bound:
-          bad('tag-out-of-range', i, 'request of call %d was given tag %d (allowed 2..%d)' % (c, t, bound))
-        if t in held:
-          bad('tag-reissued-while-held', i, 'tag %d given to call %d while call %d holds it unanswered' % (t, c, held[t]))
-        if t in free:
-          free.discard(t)
-        elif t == hi + 1:
-          if free:
-            bad('fresh-tag-while-released-available', i, 'new tag %d although %s were released and are unused' % (t, sorted(free)))
-          hi = t
-        else:
-          if t not in held:
-            bad('tag-neither-recycled-nor-next', i, 'tag %d was never released and is not the next tag %d' % (t, hi + 1))
-          hi = max(hi, t)
-        held[t] = c
-        queued[c] = t
-        peak = max(peak, len(held))
-      elif e[0] == 'enq' and e[1] == 'discard':
-        if e[2] != 0:
-          bad('discard-frame-tag', i, 'Tdiscarded queued with frame tag %d' % e[2])
-        if k != 'notify' or leased.get(op[1]) != e[3]:
-          bad('discard-names-wrong-tag', i, 'Tdiscarded names tag %d; the timed-out call leased %s' % (e[3], leased.get(op[1]) if k == 'notify' else None))
-      elif e[0] == 'enq' and e[1] == 'ping':
-        if e[2] != 1:
-          bad('ping-tag', i, 'Tping queued on tag %d' % e[2])
-      elif e[0] == 'wr' and e[1] == 'req':
-        t, c = e[2], e[3]
-        if t in (0, 1):
-          bad('reserved-tag', i, 'request of call %d written with the reserved tag %d' % (c, t))
-        elif not 2 <= t <= bound:
-          bad('tag-out-of-range', i, 'request of call %d written with tag %d (allowed 2..%d)' % (c, t, bound))
-        if queued.get(c) != t:
-          bad('written-tag-differs', i, 'call %d written with tag %d but queued with %s' % (c, t, queued.get(c)))
-        if leased.get(c) != t:
-          bad('wire-tag-differs-from-lease', i, 'call %d leased tag %s from the pool but is written with tag %d' % (c, leased.get(c), t))
-        other = held.get(t)
-        if other is not None and other != c and other in written:
-          bad('duplicate-tag-on-wire', i, 'call %d written with tag %d while the written request of call %d is unanswered on it' % (c, t, other))
-        if t > hi0 + peak:
-          bad('reuse-bound', i, 'tag %d written although at most %d requests were ever unanswered together (pool started at %d)' % (t, peak, hi0))
-        written.add(c)
-      elif e[0] == 'wr' and e[1] == 'discard':
-        if e[2] != 0:
-          bad('discard-frame-tag', i, 'Tdiscarded written with frame tag %d' % e[2])
-      elif e[0] == 'wr' and e[1] == 'ping':
-        if e[2] != 1:
-          bad('ping-tag', i, 'Tping written on tag %d' % e[2])
-      elif e[0] == 'drop':
-        t, c = e[1], e[2]
-        if c not in fired:
-          bad('dropped-without-timeout', i, 'request of call %d left the queue unwritten although its deadline never fired' % c)
-        if held.get(t) == c:        # never written: the tag is reusable
-          del held[t]
-          free.add(t)
-      elif e[0] == 'deliver':
-        delivered.append(e[1])
-      elif e[0] == 'raise':
-        if free or hi != bound:
-          bad('request-refused', i, 'AsyncProcessRequest raised %r with %d released tags, high-water mark %d' % (e[2], len(free), hi))
-      elif e[0] == 'closed':
-        closed = True
-        held = {}
-      elif e[0] in ('error',):
-        pass
-      elif e[0] in ('enq', 'wr') and e[1] == 'bad':
-        bad('undecodable-frame', i, 'frame %s' % e[2])
-      else:
-        bad('unexpected-event', i, repr(e))
-    if k == 'recv':
-      want = [answered] if answered is not None else []
-      if delivered != want:
-        bad('reply-misrouted', i, 'peer frame type %d tag %d: delivered to %s, holder of the tag: %s' % (op[1], op[2], delivered, want))
-    elif delivered:
-      bad('reply-misrouted', i, 'reply delivered to %s without a peer frame' % delivered)
+          bad('unexpected-event', repr(e))
+      if k == 'frame':
+        want = [answered] if answered is not None else []
+        if delivered != want:
+          bad('reply-misrouted', 'peer frame %s: delivered to %s, holder of the tag: %s' % (list(label[1:]), delivered, want))
+      elif delivered:
+        bad('reply-misrouted', 'reply delivered to %s without a peer frame' % delivered)
   if case.get('long') and not case.get('start') and hi > case['long'] + 1:
     v.append(('long-run-high-water', 'steady traffic with at most %d unanswered requests used tags up to %d' % (case['long'], hi)))
+  return v
+
+
+def _monitor_mux(case, obs):
+  v = []
+  for a in obs.get('pool_args', []):
+    if a != REAL_MAX:
+      v.append(('pool-size-constant', 'the sink builds TagPool(%r), expected 2^24-1' % (a,)))
+  for name, items in sorted(_split(case, obs).items()):
+    v += _monitor_inst(case, name, items, obs['handshakes'].get(name, []))
   return v
 
 
@@ -987,34 +1427,52 @@ def _event(e):
   return 'EBadPick'        # anything the model has no event for can never match
 
 
-def _label(op, evs):
-  k = op[0]
+def _label(label, own):
+  k = label[0]
   if k == 'req':
     pick = 0
-    for e in evs:
+    for e in own:
       if e[0] == 'enq' and e[1] == 'req':
         pick = e[2]
-    for e in evs:
+    for e in own:
       if e[0] == 'lease':          # what TagPool.get() returned (the wire tag above is the fallback)
         pick = e[1]
-    return 'Req %s %s %s' % (C.zlit(op[1]), C.zlit(op[2]), C.zlit(pick))
+    return 'Req %s %s %s' % (C.zlit(label[1]), C.zlit(label[2]), C.zlit(pick))
   if k == 'send':
-    return 'SendStep %s' % C.blit(op[1])
+    return 'SendStep %s' % C.blit(label[1])
   if k == 'fire':
-    return 'Fire %s' % C.zlit(op[1])
+    return 'Fire %s' % C.zlit(label[1])
   if k == 'notify':
-    return 'Notify %s' % C.zlit(op[1])
-  if k == 'recv':
-    return 'Recv %s %s' % (C.zlit(op[1]), C.zlit(op[2]))
-  if k == 'junk':
-    return 'RecvJunk'
+    return 'Notify %s' % C.zlit(label[1])
+  if k == 'frame':
+    return 'RecvJunk' if label[1] == 'junk' else 'Recv %s %s' % (C.zlit(label[1]), C.zlit(label[2]))
   if k == 'ping':
     return 'Ping'
   if k == 'shutdown':
     return 'Shutdown'
   if k == 'reopen':
     return 'Reopen'
-  raise ValueError(k)
+  if k == 'openagain':
+    return 'OpenAgain'
+  return None
+
+
+def _groups(items):
+  gs = []
+  es = []
+  for _i, _op, nodes in items:
+    g = []
+    ev = []
+    for label, own in nodes:
+      lb = _label(label, own)
+      if lb is None:
+        ev.append('EBadPick')
+      else:
+        g.append(lb)
+      ev += [_event(e) for e in own if e[0] not in ('lease', 'release')]
+    gs.append(C.lst(g))
+    es.append(C.lst(ev))
+  return C.lst(gs), C.lst(es)
 
 
 MAX_COQ_OPS = 2500
@@ -1043,18 +1501,21 @@ def to_coq(case, obs):
                                      C.opt(C.zlit(obs['after'])) if obs['after'] is not None else 'None')
   if len(case['ops']) > MAX_COQ_OPS:
     return None
-  labels = [_label(op, evs) for op, evs in zip(case['ops'], obs['steps'])]
-  exp = [C.lst([_event(e) for e in evs if e[0] not in ('lease', 'release')]) for evs in obs['steps']]
   cfg = '{| max_tag := %s; kafka := %s; base := %s |}' % (C.zlit(case.get('max') or REAL_MAX), C.blit(case['proto'] == 'kafka'),
                                                         C.zlit(case.get('start') or 1))
-  return 'CMux %s %s %s' % (cfg, C.lst(labels), C.lst(exp))
+  sp = _split(case, obs)
+  ga, ea = _groups(sp.get('A', []))
+  if 'B' not in sp:
+    return 'CMux %s %s %s' % (cfg, ga, ea)
+  gb, eb = _groups(sp['B'])
+  return 'CMux2 %s %s %s %s %s' % (cfg, ga, ea, gb, eb)
 
 
 # ---------------------------------------------------------------------------------------------
 # evidence helpers
 # ---------------------------------------------------------------------------------------------
 def _branches(case, obs):
-  """Which branches of the model a mux case went through (derived from ops + observed events)."""
+  """Which branches of the model / which input shapes a case went through (derived from what was done + observed)."""
   b = collections.Counter()
   if case['kind'] == 'pool':
     for op, o in zip(case['ops'], obs['pool']):
@@ -1070,111 +1531,115 @@ def _branches(case, obs):
   if st:
     b['pool-fast-forwarded:' + ('below-2^16' if st < 65500 else 'around-2^16' if st <= 65600 else 'top-of-tag-space' if st >= 2 ** 24 - 64
                                 else 'between')] += 1
-  closed = False
-  tagof = {}
-  answered_unsent = set()
-  answered = set()
-  sent = set()
-  subscribed = set()
-  fired = set()
-  pending = set()
-  known = {}
-  conn = 0
-  for op, evs in zip(case['ops'], obs['steps']):
-    k = op[0]
-    names = [e[0] + (':' + e[1] if e[0] in ('enq', 'wr') else '') for e in evs]
-    if k == 'req':
-      if 'raise' in names:
-        b['req:exhausted'] += 1
-      elif 'error' in names:
-        b['req:not-open'] += 1
-      elif 'enq:req' in names:
-        t = [e for e in evs if e[0] == 'enq'][0][2]
-        b['req:dl%d:%s' % (min(op[2], 2), 'recycled' if t in tagof.values() else 'fresh')] += 1
-        tagof[op[1]] = t
-      else:
-        b['req:not-new'] += 1
-      if op[1] not in known:
-        known[op[1]] = (conn, op[2])
-        if op[2] >= 2:
-          fired.add(op[1])
-          pending.add(op[1])
-    elif k == 'send':
-      if not evs:
-        b['send:idle'] += 1
-      elif 'closed' in names:
-        b['send:write-failed'] += 1
-      elif 'drop' in names:
-        c = [e for e in evs if e[0] == 'drop'][0][2]
-        b['send:dropped-' + ('after-premature-reply' if c in answered else 'tag-released')] += 1
-      else:
-        for e in evs:
-          if e[0] == 'wr':
-            b['send:written-' + e[1]] += 1
-            if e[1] == 'req':
-              sent.add(e[3])
-              if known.get(e[3], (0, 0))[1] == 1 and e[3] not in fired:
-                subscribed.add(e[3])
-                b['send:subscribed-timeout-handler'] += 1
-              if e[3] in answered_unsent:
-                b['send:written-after-premature-reply'] += 1
-    elif k == 'fire':
-      c = op[1]
-      if c not in known or known[c][0] != conn:
-        b['fire:not-applicable'] += 1
-      elif known[c][1] == 0:
-        b['fire:no-deadline'] += 1
-      elif c in fired:
-        b['fire:already-fired'] += 1
-      else:
-        fired.add(c)
-        pending.add(c)
-        b['fire:set'] += 1
-    elif k == 'notify':
-      c = op[1]
-      if 'enq:discard' in names:
-        b['notify:discard' + ('-after-close' if closed else '')] += 1
-      elif c not in known or known[c][0] != conn or c not in pending:
-        b['notify:not-applicable'] += 1
-      elif c not in subscribed:
-        b['notify:no-subscriber'] += 1
-      elif c in answered:
-        b['notify:subscriber-already-answered'] += 1
-      elif case['proto'] == 'kafka':
-        b['notify:kafka-no-discard'] += 1
-      else:
-        b['notify:other'] += 1
-      pending.discard(c)
-      subscribed.discard(c)
-    elif k == 'recv':
-      if 'deliver' in names:
-        c = [e for e in evs if e[0] == 'deliver'][0][1]
-        answered.add(c)
-        b['recv:answers'] += 1
-        if c not in sent:
-          answered_unsent.add(c)
-          b['recv:answers-unsent-request'] += 1
-      elif closed:
-        b['recv:closed'] += 1
-      elif case['proto'] == 'thriftmux' and op[2] == 1 and op[1] == -65:
-        b['recv:ping-reply'] += 1
-      elif op[2] == 1:
-        b['recv:tag1-non-ping'] += 1
-      elif op[2] == 0:
-        b['recv:tag0'] += 1
-      else:
-        b['recv:unknown-tag'] += 1
-    elif k == 'shutdown':
-      b['shutdown:' + ('noop' if not evs else 'with-%s-pending' % ('some' if 'error' in names else 'no'))] += 1
-    elif k == 'reopen':
-      b['reopen:' + ('done' if closed else 'noop')] += 1
-    else:
-      b[k] += 1
-    if 'closed' in names:
-      closed = True
-    if k == 'reopen' and closed:
-      closed = False
-      conn += 1
+  sp = _split(case, obs)
+  if 'B' in sp:
+    b['shape:two-sinks-in-one-process'] += 1
+  for name, items in sp.items():
+    closed = False
+    answered = set()
+    sent = set()
+    subscribed = set()
+    fired = set()
+    pending = set()
+    dl_of = {}
+    seen_tags = set()
+    for _i, op, nodes in items:
+      if op[0] == 'recv' and len(op) > 3 and nodes:
+        b['shape:frame-in-two-pieces'] += 1
+      if op[0] == 'recvmany' and nodes:
+        b['shape:several-frames-in-one-segment'] += 1
+      if op[0] == 'send' and op[1] == 2 and any(e[0] == 'wr' for _l, own in nodes for e in own):
+        b['shape:slow-write-begun'] += 1
+      if op[0] == 'handshake' and nodes:
+        nreq = sum(1 for l, _o in nodes if l[0] == 'req')
+        b['open:pending-then-%s-with-%s-waiting-requests' % (op[1], 'some' if nreq else 'no')] += 1
+      if op[0] == 'shutdown' and any(l[0] == 'req' for l, _o in nodes):
+        b['open:closed-while-pending-with-waiting-requests'] += 1
+      if op[0] == 'reopen' and len(op) > 1 and nodes:
+        b['reopen:mode-%s' % {0: 'eager', 1: 'pending', 2: 'connect-fails'}.get(op[1], op[1])] += 1
+      for label, own in nodes:
+        k = label[0]
+        names = [e[0] + (':' + e[1] if e[0] in ('enq', 'wr') else '') for e in own]
+        if k == 'req':
+          c = label[1]
+          dl_of[c] = label[2]
+          if label[2] >= 2:
+            fired.add(c)
+            pending.add(c)
+          if 'raise' in names:
+            b['req:exhausted'] += 1
+          elif 'error' in names:
+            b['req:not-open'] += 1
+          elif 'enq:req' in names:
+            t = [e for e in own if e[0] == 'enq'][0][2]
+            b['req:dl%d:%s' % (min(label[2], 2), 'recycled' if t in seen_tags else 'fresh')] += 1
+            seen_tags.add(t)
+        elif k == 'send':
+          if 'closed' in names:
+            b['send:write-failed'] += 1
+          elif 'drop' in names:
+            c = [e for e in own if e[0] == 'drop'][0][2]
+            b['send:dropped-' + ('after-premature-reply' if c in answered else 'tag-released')] += 1
+          else:
+            for e in own:
+              if e[0] == 'wr':
+                b['send:written-' + e[1]] += 1
+                if e[1] == 'req':
+                  sent.add(e[3])
+                  if dl_of.get(e[3]) == 1 and e[3] not in fired:
+                    subscribed.add(e[3])
+                    b['send:subscribed-timeout-handler'] += 1
+                  if e[3] in answered:
+                    b['send:written-after-premature-reply'] += 1
+        elif k == 'fire':
+          fired.add(label[1])
+          pending.add(label[1])
+          b['fire:set'] += 1
+        elif k == 'notify':
+          c = label[1]
+          if 'enq:discard' in names:
+            b['notify:discard' + ('-after-close' if closed else '')] += 1
+          elif c not in subscribed:
+            b['notify:no-subscriber'] += 1
+          elif c in answered:
+            b['notify:subscriber-already-answered'] += 1
+          elif case['proto'] == 'kafka':
+            b['notify:kafka-no-discard'] += 1
+          else:
+            b['notify:other'] += 1
+          pending.discard(c)
+          subscribed.discard(c)
+        elif k == 'frame':
+          if label[1] == 'junk':
+            b['recv:short-frame'] += 1
+          elif 'deliver' in names:
+            c = [e for e in own if e[0] == 'deliver'][0][1]
+            answered.add(c)
+            b['recv:answers'] += 1
+            if c not in sent:
+              b['recv:answers-unsent-request'] += 1
+          elif case['proto'] == 'thriftmux' and label[2] == 1 and label[1] == -65:
+            b['recv:ping-reply'] += 1
+          elif label[2] == 1:
+            b['recv:tag1-non-ping'] += 1
+          elif label[2] == 0:
+            b['recv:tag0'] += 1
+          else:
+            b['recv:unknown-tag'] += 1
+        elif k == 'shutdown':
+          b['shutdown:' + ('noop' if not own else 'with-%s-pending' % ('some' if 'error' in names else 'no'))] += 1
+        elif k == 'reopen':
+          closed = False
+        elif k == 'openagain':
+          b['openagain:' + ('ping-queued' if own else 'nothing')] += 1
+        elif k == 'ping':
+          b['ping'] += 1
+        if 'closed' in names:
+          closed = True
+  for evs in obs['steps']:
+    for e in evs:
+      if e[0] == 'note':
+        b['shape:' + e[1]] += 1
   return b
 
 
